@@ -230,7 +230,7 @@ func c02Shrink(raw json.RawMessage) []json.RawMessage {
 func init() {
 	Register(&Check{
 		ID: "C02", Level: "exploration", Isolation: 30,
-		QuickRuns: 8000, ThoroughRuns: 400000,
+		QuickRuns: 20000, ThoroughRuns: 400000,
 		Gen: c02Gen, Exec: c02Exec, Shrink: c02Shrink,
 		Rule: "one case = one session of 3-9 commands (Run, Parse + RunAfterParsed x2, RunExpr; generated, ill-typed, broken and adversarial programs; per-command budget aborts and simulator cancellation at a chosen tick) on one long-lived VM; before EVERY command the VM's variables are deep-copied (aliasing and compiled-code caches preserved) and its generator bytes captured, and the command is also run on a fresh VM given exactly that; outcomes (value, error, detail, matched/rest, op count, generator bytes, variables afterwards, cancellation point) must be identical. distinct = distinct command-text sequences; non-trivial = at least 3 commands compared",
 		Real: []string{"dicescript Context lifecycle (Parse/Run/RunAfterParsed/RunExpr), VM, values"},
